@@ -309,6 +309,11 @@ type Ctx struct {
 	specFuns      map[*ssa.Function]*specDef
 	phLeaves      [][2]string
 	invEntry      []string
+	assertTags    []int // top-level basic block during which each assertion was made (-1: before the body)
+	curTopBlock   int
+	curEdgeFrom   int
+	curGroup      string
+	captured      []capturedCell
 	ptrLeaves     map[string]bool
 	epochNext     map[int]string
 	inInv         bool
@@ -419,6 +424,7 @@ func (c *Ctx) assume(t string) {
 		return
 	}
 	c.asserts = append(c.asserts, implies(c.curReach, t))
+	c.assertTags = append(c.assertTags, c.curTopBlock)
 }
 
 // assumeAlways adds a definitional fact (independent of reachability).
@@ -427,6 +433,7 @@ func (c *Ctx) assumeAlways(t string) {
 		return
 	}
 	c.asserts = append(c.asserts, t)
+	c.assertTags = append(c.assertTags, c.curTopBlock)
 }
 
 // define introduces a fresh constant equal to term (keeps terms small).
@@ -436,6 +443,7 @@ func (c *Ctx) define(hint, sort, term string) string {
 	}
 	n := c.fresh(hint, sort)
 	c.asserts = append(c.asserts, eq(n, term))
+	c.assertTags = append(c.assertTags, c.curTopBlock)
 	return n
 }
 
@@ -511,8 +519,9 @@ func (c *Ctx) refBoundAxiom(name, leaf, sort, nx string) {
 	default:
 		return
 	}
-	defer func(q int) { c.quant = q }(c.quant)
+	defer func(q, b int) { c.quant, c.curTopBlock = q, b }(c.quant, c.curTopBlock)
 	c.quant = 0
+	c.curTopBlock = -1 // a closed, global fact: relevant to every obligation
 	switch dim {
 	case 0:
 		c.assumeAlways(bound(name))
@@ -914,8 +923,9 @@ func (c *Ctx) strConst(s string) string {
 		return t
 	}
 	// closed facts about a literal: recorded even when first needed under a quantifier
-	defer func(q int) { c.quant = q }(c.quant)
+	defer func(q, b int) { c.quant, c.curTopBlock = q, b }(c.quant, c.curTopBlock)
 	c.quant = 0
+	c.curTopBlock = -1 // a closed, global fact: relevant to every obligation
 	id := c.prog.strConstID(s)
 	ref := num(int64(-1000 - id))
 	t := fmt.Sprintf("(mkStr %s 0 %d)", ref, len(s))
